@@ -4,7 +4,8 @@
 // every successful suspension / resumption of the close queue (compare-and-swap of _dispatch_lane_suspend / _dispatch_lane_resume on
 // its dq_state), the beginning and end of every handler call of an operation scheduled before its channel was closed, and every
 // cleanup handler. The record is replayed through IoHold.astep (dvdriver iohold).
-// Per round: a pipe (read end: data arrives late or never; write end) or a regular file, one or two channels on the same descriptor,
+// Per round: a pipe (read end: data arrives late or never; write end), a regular file, or a file the channel opens by path itself
+// (dispatch_io_create_with_path); one or two channels on the same descriptor (the second by dispatch_io_create or dispatch_io_create_with_io),
 // reads / writes / zero-length operations with handlers on a serial and on a concurrent queue, close or stop of each channel at a
 // random point, operations scheduled after the close (they complete with ECANCELED and hold nothing).
 // Oracle on the same run: a cleanup handler runs exactly once per channel, with no handler call of a held operation in progress or
@@ -22,6 +23,8 @@
 #include <pthread.h>
 #include <stdatomic.h>
 #include <sys/syscall.h>
+#include <signal.h>
+#include <execinfo.h>
 typedef void (*cb_t)(const volatile void *addr, unsigned size, int op, uint64_t o, uint64_t n, const char *func, int line);
 extern cb_t _dispatch_verif_atomic_cb;
 extern volatile void *_dispatch_verif_queue_state_addr(dispatch_queue_t dq);
@@ -52,15 +55,17 @@ static void one_op(struct round *R, dispatch_io_t ch, int closed, int kind, int 
   if(kind==0) dispatch_io_read(ch, file?(off_t)(rnd()%20000):0, len, hq, h);
   else { void *b=malloc(len?len:1); memset(b,7,len?len:1); dispatch_data_t d = len? dispatch_data_create(b,len,NULL,DISPATCH_DATA_DESTRUCTOR_FREE) : dispatch_data_empty; if(!len) free(b);
     dispatch_io_write(ch, file?(off_t)(rnd()%20000):0, d, hq, h); if(len) dispatch_release(d); } }
-static long round_(int id, int shape){ struct round *R=calloc(1,sizeof *R); R->id=id; int p[2]={-1,-1}; int fd; char path[64]=""; int file=(shape==2), rd=(shape==0);
-  if(file){ snprintf(path,sizeof path,"/var/tmp/tr_iohold.%d",(int)getpid()); fd=open(path,O_RDWR|O_CREAT|O_TRUNC,0600); if(fd<0) return 0; if(ftruncate(fd,1<<16)){} }
+static long round_(int id, int shape){ struct round *R=calloc(1,sizeof *R); R->id=id; int p[2]={-1,-1}; int fd; char path[64]=""; int file=(shape>=2), rd=(shape==0), bypath=(shape==3);
+  if(file){ snprintf(path,sizeof path,"/var/tmp/tr_iohold.%d",(int)getpid()); fd=open(path,O_RDWR|O_CREAT|O_TRUNC,0600); if(fd<0) return 0; if(ftruncate(fd,1<<16)){} if(bypath){ close(fd); fd=-1; } }
   else { if(pipe(p)) return 0; fd = rd ? p[0] : p[1]; (void)fcntl(p[1],F_SETPIPE_SZ,1<<20); }
   dispatch_queue_t hq=dispatch_queue_create("h",NULL), cq=dispatch_queue_create("c",NULL), gq=dispatch_get_global_queue(0,0);
   dispatch_semaphore_t cs=dispatch_semaphore_create(0);
-  void (^cleanup)(int) = ^(int e){ (void)e; rec(4); if(atomic_load(&R->held_running)) fail("a cleanup handler ran while a handler call of an operation of the descriptor was in progress: round",id,0,0);
+  void (^cleanup)(int) = ^(int e){ if(e){ fail("a channel created on an open descriptor / channel reported an error to its cleanup handler: round/error",id,e,0); dispatch_semaphore_signal(cs); return; } rec(4); if(atomic_load(&R->held_running)) fail("a cleanup handler ran while a handler call of an operation of the descriptor was in progress: round",id,0,0);
       if(atomic_load(&R->held_pending)) fail("a cleanup handler ran before the last handler call of an operation scheduled before the close: round/operations not yet done",id,atomic_load(&R->held_pending),0);
       atomic_store(&R->cleaned,1); dispatch_semaphore_signal(cs); };
-  dispatch_io_t A=dispatch_io_create(file?DISPATCH_IO_RANDOM:DISPATCH_IO_STREAM,fd,cq,^(int e){ if(atomic_fetch_add(&R->cleanups[0],1)) fail("the cleanup handler of a channel ran twice: round",id,0,0); cleanup(e); });
+  void (^cleanupA)(int) = ^(int e){ if(atomic_fetch_add(&R->cleanups[0],1)) fail("the cleanup handler of a channel ran twice: round",id,0,0); cleanup(e); };
+  // a channel on the descriptor, or (shape 3) a channel that opens the file by path itself
+  dispatch_io_t A = bypath ? dispatch_io_create_with_path(DISPATCH_IO_RANDOM,path,O_RDWR,0,cq,cleanupA) : dispatch_io_create(file?DISPATCH_IO_RANDOM:DISPATCH_IO_STREAM,fd,cq,cleanupA);
   dispatch_semaphore_t s0=dispatch_semaphore_create(0); dispatch_io_barrier(A,^{ dispatch_semaphore_signal(s0); }); dispatch_semaphore_wait(s0,DISPATCH_TIME_FOREVER); usleep(2000);
   dispatch_queue_t clq=_dispatch_verif_io_close_queue(A); if(!clq){ fail("channel has no descriptor entry: round",id,0,0); return 0; }
   CQS=_dispatch_verif_queue_state_addr(clq); uint64_t st=*(volatile uint64_t*)CQS;
@@ -68,10 +73,17 @@ static long round_(int id, int shape){ struct round *R=calloc(1,sizeof *R); R->i
   printf("N %d %lu %d\n", id, (unsigned long)((st>>58)&63), (int)((st>>57)&1));
   unsigned long k0=atomic_load(&nev); atomic_store(&tracing,1);
   dispatch_io_t B=NULL; int nact=6+(int)(rnd()%18), closeA=(int)(rnd()%(uint64_t)(nact+1)), openB=(rnd()%2)?(int)(rnd()%(uint64_t)nact):-1, closeB=-1, aClosed=0, bClosed=0; int two=0;
+  if(bypath) openB=-1;                                  // a second channel on a path channel gets a descriptor entry of its own
   if(openB>=closeA) openB = closeA>0 ? (int)(rnd()%(uint64_t)closeA) : -1;      // the second channel joins the descriptor entry while the first still holds it (afterwards it would get an entry of its own)
   if(rd && rnd()%2){ char buf[512]; memset(buf,3,sizeof buf); if(write(p[1],buf,sizeof buf)<0){} }     // some data is there at once, the rest late or never
   for(int a=0;a<=nact && !viol;a++){
-    if(a==openB){ B=dispatch_io_create(file?DISPATCH_IO_RANDOM:DISPATCH_IO_STREAM,fd,cq,^(int e){ if(atomic_fetch_add(&R->cleanups[1],1)) fail("the cleanup handler of a channel ran twice: round",id,1,0); cleanup(e); }); two=1; closeB=a+1+(int)(rnd()%(uint64_t)(nact-a+1)); }
+    if(a==openB){ void (^cleanupB)(int) = ^(int e){ if(atomic_fetch_add(&R->cleanups[1],1)) fail("the cleanup handler of a channel ran twice: round",id,1,0); cleanup(e); };
+      if(rnd()%2){ B=dispatch_io_create_with_io(file?DISPATCH_IO_RANDOM:DISPATCH_IO_STREAM,A,cq,cleanupB);
+        // the new channel attaches on the first channel's queues; a stop of the first one issued before that makes it an error channel
+        // (legitimately): let it attach first
+        for(int w=0; w<20000 && !_dispatch_verif_io_close_queue(B); w++) usleep(100); }
+      else B=dispatch_io_create(file?DISPATCH_IO_RANDOM:DISPATCH_IO_STREAM,fd,cq,cleanupB);
+      two=1; closeB=a+1+(int)(rnd()%(uint64_t)(nact-a+1)); }
     if(a==closeA){ dispatch_io_close(A, (rnd()%2)?DISPATCH_IO_STOP:0); aClosed=1; }
     if(B && a==closeB){ dispatch_io_close(B, (rnd()%3==0)?DISPATCH_IO_STOP:0); bClosed=1; }
     if(a==nact) break;
@@ -87,13 +99,16 @@ static long round_(int id, int shape){ struct round *R=calloc(1,sizeof *R); R->i
   usleep(5000); atomic_store(&tracing,0); CQS=NULL;
   if(!viol && (R->cleanups[0]!=1 || (two && R->cleanups[1]!=1))) fail("cleanup handler count is not one per channel: round/first/second",id,R->cleanups[0],R->cleanups[1]);
   if(atomic_load(&slow_seen)) printf("X %d\n", id);      // the suspension count went through the side counter: this round is judged by the oracle only
-  (void)k0; if(file){ close(fd); unlink(path); } else { close(p[0]); if(!rd) close(p[1]); }
+  (void)k0; if(file){ if(fd>=0) close(fd); unlink(path); } else { close(p[0]); if(!rd) close(p[1]); }
   dispatch_release(hq); dispatch_release(cq);
   return nact; }
-int main(int argc,char**argv){ uint64_t seed=argc>1?strtoull(argv[1],0,0):1; int rounds=argc>2?atoi(argv[2]):30; rs=seed;
+static uint64_t g_seed;
+static void on_crash(int sig){ char b[200]; int n=snprintf(b,sizeof b,"ORACLE VIOL seed=%llu the library trapped or crashed (signal %d) during channel life cycles\n",(unsigned long long)g_seed,sig); if(n>0) (void)!write(1,b,(size_t)n);
+  void *bt[40]; int k=backtrace(bt,40); backtrace_symbols_fd(bt,k,2); _exit(1); }
+int main(int argc,char**argv){ signal(SIGILL,on_crash); signal(SIGSEGV,on_crash); signal(SIGABRT,on_crash); signal(SIGBUS,on_crash); uint64_t seed=argc>1?strtoull(argv[1],0,0):1; int rounds=argc>2?atoi(argv[2]):30; rs=seed; g_seed=seed;
   _dispatch_verif_atomic_cb=cb; long n=0;
   unsigned long starts[4096]; int ns=0;
-  for(int r=0;r<rounds && !viol && r<4096;r++){ starts[ns++]=atomic_load(&nev); n+=round_(r,(int)(rnd()%3)); }
+  for(int r=0;r<rounds && !viol && r<4096;r++){ starts[ns++]=atomic_load(&nev); n+=round_(r,(int)(rnd()%4)); }
   _dispatch_verif_atomic_cb=0;
   if(viol) printf("ORACLE VIOL seed=%llu %s\n",(unsigned long long)seed,vmsg); else printf("ORACLE ok items=%ld events=%lu zero_length=%ld scheduled_after_close=%ld\n",total_ops,atomic_load(&nev),zero_ops,late_ops);
   unsigned long ne=atomic_load(&nev); if(ne>MAXEV) ne=MAXEV;
